@@ -26,6 +26,8 @@ enum Delay {
     Dyn20_30_10,
     /// 19.75 ms: a fractional number of milliseconds
     Frac,
+    /// 0.9 ms: less than a millisecond (not zero: still latency mode)
+    SubMs,
 }
 
 impl Delay {
@@ -40,6 +42,8 @@ impl Delay {
             Delay::Dyn20_30_10 => [20, 30, 10, 0][(k - 1).min(3)],
             // virtual instants are whole milliseconds: a gap g satisfies 19.75 ms iff g >= 20
             Delay::Frac => 20,
+            // ... and a gap g satisfies 0.9 ms iff g >= 1
+            Delay::SubMs => 1,
         }
     }
 }
@@ -99,6 +103,7 @@ impl Scenario for Hg {
             Delay::Fixed20 => b.delay(Duration::from_millis(20 * self.scale)),
             Delay::Immediate => b.no_delay(),
             Delay::Frac => b.delay(Duration::from_micros(19_750)),
+            Delay::SubMs => b.delay(Duration::from_micros(900)),
             d => {
                 let scale = self.scale;
                 b.delay_fn(move |k| Duration::from_millis(d.of(k) * scale))
@@ -325,8 +330,8 @@ impl Scenario for Hg {
 fn configs(tier: Tier) -> Vec<Hg> {
     let mut v = vec![];
     for max in [1usize, 2, 3] {
-        for delay in [Delay::Fixed20, Delay::Immediate, Delay::Dyn20_10, Delay::Dyn20_0, Delay::Dyn0_20, Delay::Dyn20_30_10, Delay::Frac] {
-            if max < 3 && matches!(delay, Delay::Dyn20_30_10) || max != 2 && matches!(delay, Delay::Frac) {
+        for delay in [Delay::Fixed20, Delay::Immediate, Delay::Dyn20_10, Delay::Dyn20_0, Delay::Dyn0_20, Delay::Dyn20_30_10, Delay::Frac, Delay::SubMs] {
+            if max < 3 && matches!(delay, Delay::Dyn20_30_10) || max != 2 && matches!(delay, Delay::Frac) || max != 3 && matches!(delay, Delay::SubMs) {
                 continue;
             }
             v.push(Hg { max, delay, max_ticks: tier.pick(6, 10), held_readiness: false, late_ticks: 0, scale: 1 });
